@@ -19,7 +19,10 @@ type loopInfo struct {
 	over   ssa.Value       // slice/array/map/string ranged over (nil for "other")
 	// fullRange: index covers 0..len(over)-1 in steps of 1
 	fullRange bool
-	blocks    map[*ssa.BasicBlock]bool // natural loop body (blocks that reach the back edge)
+	// constBound: the loop condition compares the index with this constant
+	// (range over an array); -1 otherwise
+	constBound int64
+	blocks     map[*ssa.BasicBlock]bool // natural loop body (blocks that reach the back edge)
 }
 
 // findLoops finds the natural loops of fn (back edges to a dominating header).
@@ -83,7 +86,7 @@ func isConstInt(v ssa.Value, n int64) bool {
 }
 
 func classifyLoop(fn *ssa.Function, h *ssa.BasicBlock) *loopInfo {
-	li := &loopInfo{fn: fn, header: h, kind: "other", blocks: naturalLoop(h)}
+	li := &loopInfo{fn: fn, header: h, kind: "other", blocks: naturalLoop(h), constBound: -1}
 	if len(h.Instrs) == 0 {
 		return li
 	}
@@ -122,6 +125,11 @@ func classifyLoop(fn *ssa.Function, h *ssa.BasicBlock) *loopInfo {
 		return li
 	}
 	over := lenOperand(cmp.Y)
+	if c, ok := cmp.Y.(*ssa.Const); ok {
+		if n, ok := constInt64(c.Value); ok && n >= 0 {
+			li.constBound = n
+		}
+	}
 	// slice-range: phi(-1, inc), inc = phi+1, cond inc < len(X)
 	if inc, ok := cmp.X.(*ssa.BinOp); ok && inc.Op == token.ADD && isConstInt(inc.Y, 1) {
 		if phi, ok := inc.X.(*ssa.Phi); ok && phi.Block() == h {
